@@ -46,7 +46,7 @@ class Run:
         self.states += paths
         self.transitions += queries
         self.solver_s += solver_s
-        if status == "inconclusive":
+        if status == "inconclusive" and not os.environ.get("VF_E1_WORKER"):
             print(f"INCONCLUSIVE property={self.pid} obligation={name} reason={detail}", flush=True)
 
     def sample(self, s):
